@@ -33,6 +33,22 @@ Theorem C04_reload_ssc : forall strict strict' t sf, load_ssc strict t = LOk sf 
 Proof. intros. apply ssc_roundtrip; [eapply loaded_ssc_wf; eauto|assumption]. Qed.
 Print Assumptions C04_reload_ssc.
 
+(* the second save is byte for byte the first: what was loaded from the first save serialises to the same text
+   (SSC: the loaded charts have their note data last, which the serialiser writes last wherever it sits) *)
+Theorem C04_second_save_sm : forall strict strict' t sf, load_sm strict t = LOk sf -> safe_sm sf = true ->
+  exists sf2, load_sm strict' (ser_sm sf) = LOk sf2 /\ ser_sm sf2 = ser_sm sf.
+Proof. intros strict strict' t sf H Hs. exists sf. split; [eapply C04_reload_sm; eauto|reflexivity]. Qed.
+Print Assumptions C04_second_save_sm.
+
+Theorem C04_second_save_ssc : forall strict strict' t sf, load_ssc strict t = LOk sf ->
+  (forall c, List.In c (ssc_charts sf) -> exists nv, get (notes_key c) c = Some nv) -> safe_ssc sf = true ->
+  exists out sf2, ser_ssc sf = Some out /\ load_ssc strict' out = LOk sf2 /\ ser_ssc sf2 = Some out.
+Proof.
+  intros strict strict' t sf H Hn Hs. destruct (C04_reload_ssc strict strict' t sf H Hn Hs) as (out & E & L).
+  exists out, (notes_last sf). split; [exact E|split; [exact L|]]. rewrite ser_ssc_notes_last. exact E.
+Qed.
+Print Assumptions C04_second_save_ssc.
+
 Theorem C04_upper_strip_idempotent : forall s, upper (upper s) = upper s /\ strip (strip s) = strip s.
 Proof. intro s. split; [apply upper_idem|apply strip_idem]. Qed.
 Print Assumptions C04_upper_strip_idempotent.
